@@ -173,6 +173,114 @@ def run(tier, seed):
                           "replay_body": v.text(None, what[:300]) + "# --- the same script without the inserted re-deliveries ---\n" + b.text()})
     return fails, stats, worlds
 
+# ---- C06: a refused call never shows later (Props/C06.lean refused_calls_invisible_partial) ------------------------------
+
+def plan_deletion(base, rng, max_pairs=3):
+    """pairs (client, event) ALL of whose deliveries in the base run were refused without moving the client's epoch down, the
+    event having no re-wrapped / re-tagged copy (the same ciphertext under another number): the base run is the run WITH
+    the refused calls inserted, the variant is the run without them.
+    → (variant commands, [(base index, variant index)] of the commands kept, chosen pairs, number of deliveries removed)"""
+    trace = [(c, r, fp) for c, r, fp in base.trace if c != "world"]
+    copies = {n for n, e in base.events.items() if e.get("rewrap_of") is not None} | {e.get("rewrap_of") for e in base.events.values() if e.get("rewrap_of") is not None}
+    dels, bad, last = {}, set(), {}
+    for i, (cmd, res, fp) in enumerate(trace):
+        c, t = client_of(cmd), cmd.split()
+        f = W.parse_fp(fp)
+        if t[0] == "deliver" and c is not None:
+            key = (c, int(t[2]))
+            b4 = last.get(c)
+            moved_down = b4 is not None and f is not None and f["epoch"] < b4["epoch"]
+            if not W.is_refusal(res.split()[0]) or moved_down or int(t[2]) in copies or "ev=" in res:
+                bad.add(key)
+            dels.setdefault(key, []).append(i)
+        if c is not None and (f is not None or fp in ("nogroup", "norecord")):
+            last[c] = f
+    cands = sorted(k for k in dels if k not in bad)
+    rng.shuffle(cands)
+    chosen = cands[: rng.randint(1, max_pairs)] if cands else []
+    drop = {i for k in chosen for i in dels[k]}
+    out, origin = [], []
+    for i, (cmd, _, _) in enumerate(trace):
+        if i in drop:
+            continue
+        origin.append((i, len(out)))
+        out.append(cmd)
+    return out, origin, chosen, len(drop)
+
+def run_refused(tier, seed):
+    """→ (oracle failures, stats, variant worlds)"""
+    quick = tier == "quick"
+    rng = random.Random(seed * 6151 + 29)
+    bases = gen_bases(seed + 1000, 12 if quick else 120, tier, rng)
+    fails, worlds = [], []
+    stats = {"bases": 0, "variants": 0, "refused_calls_removed": 0, "equal": 0, "nondeterministic_bases": 0, "commands_compared": 0,
+             "bases_without_candidate": 0, "removed_answers": {}, "removed_kinds": {}}
+    for b in bases:
+        if getattr(b, "crashed", None):
+            continue
+        stats["bases"] += 1
+        for v_i in range(1 if quick else 3):
+            cmds, origin, chosen, ndrop = plan_deletion(b, rng)
+            if not chosen:
+                stats["bases_without_candidate"] += 1
+                break
+            bt = [x for x in b.trace if x[0] != "world"]
+            kept = {bi for bi, _ in origin}
+            for i, (cmd, res, _) in enumerate(bt):
+                if i not in kept:
+                    h = head(res)
+                    stats["removed_answers"][h] = stats["removed_answers"].get(h, 0) + 1
+            for c, n in chosen:
+                ev = b.events.get(n, {})
+                k = (ev.get("sub") or ev.get("kind") or "?") + (":adv" if ev.get("adv") else "")
+                stats["removed_kinds"][k] = stats["removed_kinds"].get(k, 0) + 1
+            v = W.replay_cmds(cmds, f"{b.id}-d{v_i}")
+            worlds.append(v)
+            stats["variants"] += 1
+            stats["refused_calls_removed"] += ndrop
+            stats["commands_compared"] += len(origin)
+            if getattr(v, "crashed", None):
+                d = (0, f"harness died: {v.crashed}")
+            else:
+                d = compare(v, b, origin, [set()] * len(origin))       # the base run is the one WITH the extra (refused) calls
+            if d is None:
+                stats["equal"] += 1
+                continue
+            ctl = W.replay_cmds(cmds_of(b), f"{b.id}-ctl")
+            n0 = len(bt)
+            if getattr(ctl, "crashed", None) or compare(b, ctl, [(i, i) for i in range(n0)], [set()] * n0) is not None:
+                stats["nondeterministic_bases"] += 1
+                continue
+            what = f"world {b.id}: without the refused deliveries {chosen} (client, event) the run differs: {d[1].replace('the run with the insertions', 'the run WITH the refused calls').replace('the base run', 'the run without them')}"
+            fails.append({"kind": "oracle", "prop": "C06", "props": ["C06"], "signature": "refused-call-changes-later-call", "what": what[:900],
+                          "replay_body": b.text(None, what[:300]) + "# --- the same script without the refused deliveries ---\n" + v.text()})
+    return fails, stats, worlds
+
+RULE_REFUSED = ("deletion pairs: generated histories executed as generated and once more WITHOUT every delivery of 1..3 (client, event) pairs all of whose deliveries were "
+                "refused (Err / Unprocessable / PreviouslyFailed / Ignored) without moving the client's epoch down and whose ciphertext exists under one event number only: "
+                "the run as generated is the run with refused calls inserted; every other command must answer the same and leave the same projection in both")
+
+def engine_refused(ob, facts, failures, coverage, tier, seed):
+    """chained into the `second_engine` hook of check_world.run for C06"""
+    import time
+    t0 = time.time()
+    f, stats, worlds = run_refused(tier, seed)
+    corr, compared = W.correspondence(worlds)
+    failures += f + corr
+    stats["correspondence_steps"] = compared
+    stats["correspondence_disagreements"] = len(corr)
+    stats["wall_seconds"] = round(time.time() - t0, 1)
+    ob.add("tie:refused-deletion-pairs:ran", stats["variants"] > 0 and stats["refused_calls_removed"] > 0, f"{stats['variants']} variants, {stats['refused_calls_removed']} refused calls removed")
+    coverage["refused_deletion_pairs"] = stats
+    coverage["evaluations"] = coverage.get("evaluations", 0) + stats["variants"]
+    coverage["distinct_nontrivial"] = coverage.get("distinct_nontrivial", 0) + len({tuple(c for c, _, _ in w.trace) for w in worlds})
+    coverage["traces_validated_against_impl"] = coverage.get("traces_validated_against_impl", 0) + stats["variants"]
+    coverage["steps_compared"] = coverage.get("steps_compared", 0) + compared
+    coverage["correspondence_disagreements"] = coverage.get("correspondence_disagreements", 0) + len(corr)
+    coverage["oracle_failures"] = coverage.get("oracle_failures", 0) + len(f)
+    coverage["rule"] = coverage.get("rule", "") + "  ||  " + RULE_REFUSED
+    return ["refused-call pairs: the base history must be reproducible when replayed (histories whose unchanged replay differs from the base run are dropped and counted)"]
+
 RULE = ("insertion pairs: generated histories (races of 1..3 commits, rollbacks, re-wrapped copies, messages, own echoes, leave proposals, restarts; no timestamp ties) "
         "executed as generated and once more with re-deliveries of already handled events (answered without refusal before, dedup record Processed / ProcessedCommit / "
         "Failed / EpochInvalidated at the receiver now) inserted at random places, 1..3 copies each; every original command must answer the same and leave the same "
